@@ -224,7 +224,13 @@ def str_eq(it, a, b):
     if len(a) != len(b):
         return False
     conj = []
+    px = it.x if it is not None else None
     for x, y in zip(a, b):
+        if px is not None and px.known:
+            if not isinstance(x, int):
+                x = px.conc(x)
+            if not isinstance(y, int):
+                y = px.conc(y)
         if isinstance(x, int) and isinstance(y, int):
             if x != y:
                 return False
@@ -457,6 +463,8 @@ def is_char_boundary(it, b, i):
     if i > n:
         return False
     x = b[i]
+    if not isinstance(x, int) and it.x is not None:
+        x = it.x.conc(x)
     if isinstance(x, int):
         return not (0x80 <= x <= 0xBF)
     # (b as i8) >= -0x40  <=>  not in 0x80..0xBF
@@ -530,6 +538,19 @@ def str_chars(it, args, callee):
 
 def decode_char(it, b, pos):
     """decode one UTF-8 scalar at pos of a (valid UTF-8) byte tuple -> (char, width); forks on the lead byte"""
+    if it.x is not None and (it.x.known or it.x.pin_probe):
+        px = it.x
+        nb = list(b)
+        for q in range(pos, min(pos + 4, len(b))):
+            x = nb[q]
+            if not isinstance(x, int):
+                k = px.conc(x)
+                if not isinstance(k, int) and px.pin_probe:
+                    p = px.pin(x)
+                    if p is not None:
+                        k = p
+                nb[q] = k
+        b = tuple(nb)
     b0 = b[pos]
     if isinstance(b0, int):
         w = 1 if b0 < 0x80 else (2 if b0 < 0xE0 else (3 if b0 < 0xF0 else 4))
@@ -553,6 +574,8 @@ def decode_char(it, b, pos):
     Z = [z3.ZeroExt(24, to_bv(x, 8)) for x in bs]
     if w == 1:
         c = Z[0]
+        if it.x is not None and not isinstance(bs[0], int):
+            it.x.char_src[c.get_id()] = (c, bs[0])
     elif w == 2:
         c = ((Z[0] & 0x1F) << 6) | (Z[1] & 0x3F)
     elif w == 3:
@@ -604,10 +627,16 @@ def str_parse_i64(it, args, callee):
         d = s.d
         if d.s > 0:
             return Err(Opaque('ParseIntError'))
+        if d.src is not None and d.src[0] == 'bv' and d.src[1].size() == 64 and d.src[2]:
+            return Ok(d.src[1])
         m = d.m
         inr = z3.And(m >= -(1 << 63), m < (1 << 63))
         if it.truth(inr):
-            return Ok(simp(z3.Int2BV(m, 64)))
+            # tie a fresh 64-bit variable to the integer through bv2int (z3 handles this direction
+            # well; int2bv terms inside later branch conditions make it answer `unknown`)
+            v = it.x.bv('i64of_%d' % len(it.x.syms), 64)
+            it.x.assume(m == z3.BV2Int(v, True))
+            return Ok(v)
         return Err(Opaque('ParseIntError'))
     if not s.concrete():
         raise Unsupported('parse::<i64> of symbolic bytes')
@@ -792,7 +821,16 @@ def hashmap_new(it, args, callee):
 
 
 def key_eq(it, a, b):
-    return it.truth(generic_eq(it, a, b))
+    r = it.truth(generic_eq(it, a, b))
+    if r and it.x is not None:
+        sa, sb = deref_all(a), deref_all(b)
+        if isinstance(sa, Str) and isinstance(sb, Str) and len(sa.b) == len(sb.b):
+            for x, y in zip(sa.b, sb.b):
+                if isinstance(x, int) and not isinstance(y, int):
+                    it.x.learn(y, x)
+                elif isinstance(y, int) and not isinstance(x, int):
+                    it.x.learn(x, y)
+    return r
 
 
 @pattern(r'^(std::collections::)?HashMap::<.*>::insert$')
@@ -1108,7 +1146,7 @@ def dec_to_string(it, args, callee):
     d = deref_all(args[0])
     if is_sym(d.m):
         text = None
-        if d.src is not None:
+        if d.src is not None and not isinstance(d.src[0], str):
             neg, ints, fracs = d.src
             ints = list(ints)
             # Display strips leading zeros of the integer part (keeps one digit)
@@ -1242,7 +1280,7 @@ def _from_int(ty):
             return NONE
         m = z3.BV2Int(v, signed)
         if w <= 64:
-            return Some(Dec(m, 0))
+            return Some(Dec(m, 0, ('bv', v, signed) if w == 64 and signed else None))
         if ty == 'i128' and it.profile == 'dev' and it.truth(v == z3.BitVecVal(1 << 127, 128)):
             it.panic('attempt to negate with overflow (rust_decimal from_i128)')
         if it.truth(z3.And(m >= -MAX96, m <= MAX96)):
@@ -1290,6 +1328,8 @@ def dec_normalize(it, args, callee):
         if m == 0:
             s = 0
         return Dec(m, s)
+    if s == 0:
+        return d
     # symbolic mantissa: strip trailing zeros digit by digit (forks at most `scale` times)
     while s > 0 and it.truth(m % 10 == 0):
         m = simp(m / 10)
